@@ -4,7 +4,8 @@ From Verif Require Import Base.Prelude Base.PySort Model.ToHashable Model.ToHash
 
 Inductive case :=
 | CPair (fp : bool) (v w : pyval)        (* to_hashable(v, fp) vs to_hashable(w, fp) *)
-| CMemo (args : list pyval).             (* f = memoize()(body); f(a) for a in args; which body run produced each result *)
+| CMemo (args : list pyval)              (* f = memoize()(body); f(a) for a in args; which body run produced each result *)
+| CPickle (v : pyval).                   (* _pickle_key(to_hashable(v)) (DiskCache file name) in two interpreters *)
 
 (* ---------- model observation ---------- *)
 Definition obs_side (r : result pyval) : sx :=
@@ -42,10 +43,36 @@ Fixpoint memo_run (i : nat) (args : list pyval) (store : list (pyval * nat)) : l
       end
   end.
 
+(* pickle.dumps of a frozenset writes its elements in iteration order = hash table order; the hashes of str and
+   bytes objects (hence of tuples / frozensets containing them) depend on PYTHONHASHSEED, those of numbers and None
+   do not.  A key is pickled to the same bytes in every process unless it contains a frozenset with >= 2 elements
+   one of which has a seed dependent hash.  (Mechanism of CPython, modelled; lists/tuples/sorted sets are ordered.) *)
+Fixpoint seeded_hash (v : pyval) : bool :=
+  match v with
+  | PA (AStr (_ :: _)) | PA (ABytes (_ :: _)) => true
+  | PA _ => false
+  | PSeq _ l => existsb seeded_hash l
+  | PSetv _ l => existsb seeded_hash l
+  | _ => false
+  end.
+Fixpoint seed_dep (k : pyval) : bool :=
+  match k with
+  | PA _ => false
+  | PSeq _ l => existsb seed_dep l
+  | PSetv _ l => ((2 <=? length l) && existsb seeded_hash l) || existsb seed_dep l
+  | PMap _ kvs => existsb (fun kv => seed_dep (fst kv) || seed_dep (snd kv)) kvs
+  | _ => false
+  end.
+
 Definition run (c : case) : sx :=
   match c with
   | CPair fp v w => run_pair fp v w
   | CMemo args => SL (memo_run 0 args [])
+  | CPickle v =>
+      match to_hashable true v with
+      | Ok k => SL [SS (s "ok"); SB (negb (seed_dep k))]
+      | Err e => SErr e
+      end
   end.
 
 (* ---------- decoding ---------- *)
@@ -104,6 +131,15 @@ Definition spec_ok (c : case) (o : sx) : bool :=
       if negb (forallb supported args) then true else
       match o with
       | SL l => Nat.eqb (length l) (length args) && memo_ok args 0 l
+      | _ => false
+      end
+  | CPickle v =>
+      (* natively handled types: the same key - also as the bytes the DiskCache derives its file name from - in
+         every process (a raised error is judged by the pair cases) *)
+      if negb (supported v && negb (has_opaque v)) then true else
+      if sx_is_err o then true else
+      match o with
+      | SL [SS t; b] => str_eqb t (s "ok") && match un_bool b with Some true => true | _ => false end
       | _ => false
       end
   end.
